@@ -317,6 +317,20 @@ fn drive_shape_reader_ref<T: std::io::Read + std::io::Seek>(r: &mut ShapeReader<
                 model.pos = vec![(*x as usize).min(n)];
                 model.exact = true;
             }
+            Op::Nth(i) if !with_index => {
+                // without an index the statement says nothing about what random access returns; if it does deliver a
+                // shape it is a successful random access (the next iteration starts at the first record), if it delivers
+                // nothing the records not yet consumed are still not consumed (or the reader restarts)
+                let i = *i as usize;
+                match r.read_nth_shape(i) {
+                    Some(Ok(s)) => {
+                        ensure!(i < n && ident(&s) == Some(i), "nth-wrong", "{}: read_nth_shape({}) without index returned record {:?}", whole(&c.ops, k), i, ident(&s));
+                        model.pos = vec![0];
+                        model.exact = true;
+                    }
+                    Some(Err(_)) | None => model.exact = false,
+                }
+            }
             Op::Nth(i) => {
                 let i = *i as usize;
                 match r.read_nth_shape(i) {
@@ -411,7 +425,7 @@ impl Prop for Histories {
     fn rule() -> &'static str {
         "bounded-exhaustive: every sequence of length <= L (quick 5, thorough 6; complete Reader and index-less reader: one more) over \
          {iterate j items (j=0,1,2,all), a new iterator consumed through nth(s) (s=0,1 — what skip / step_by use), read_nth(i) i in 0..=n, seek(k) k in 0..=n, shape_count} on ShapeReader::with_shx; {iterate j \
-         pairs, seek(k), shape_count} on the complete Reader (rows carry their index); {iterate j} on a reader without index; the ShapeReader and Reader histories also through from_path on real files (one op shorter, records of ~3 KB so that the file spans BufReader's 8 KiB buffer); files with \
+         pairs, seek(k), shape_count} on the complete Reader (rows carry their index); {iterate j, read_nth(i)} on a reader without index; the ShapeReader and Reader histories also through from_path on real files (one op shorter, records of ~3 KB so that the file spans BufReader's 8 KiB buffer); files with \
          n=3 (thorough also 4) records of pairwise different sizes and of equal sizes. Oracle: reference state machine (read_nth(i) -> \
          record i / None; count constant; iteration after open / successful read_nth / seek(k) yields exactly 0.. / 0.. / k.. then ends; \
          a further iteration yields the not-yet-consumed records or all records from the first; rows stay aligned). \
@@ -767,6 +781,12 @@ impl EnumProp for Histories {
                 }
                 for l in 1..=len {
                     blocks.push(Block { n, equal, layout: 0, reader: 4, alphabet: a1.clone(), len: l });
+                }
+                // random access (refused today) in the histories of a reader without index
+                let mut a2n = a2.clone();
+                a2n.extend([Op::Nth(0), Op::Nth(1), Op::Nth(n)]);
+                for l in 1..=len {
+                    blocks.push(Block { n, equal, layout: 0, reader: 2, alphabet: a2n.clone(), len: l });
                 }
                 // failing typed accesses in the history
                 for l in 1..=len - 1 {
